@@ -47,7 +47,7 @@ func c16Judge(r *Run, h *lcHist, cutOp string) {
 func TestC16(t *testing.T) {
 	r := newRun(t, "C16", "fault_enumeration")
 	defer r.Finish()
-	r.Rule = "prefix enumeration: every honest scenario (4 roles × 2 chains × {happy, payment failing, claim broadcast failing, fee unpaid}) is cut at every boundary crossing of the node (the peer dies there), optionally with one crash of the node before the cut; then the drain procedure runs: <=6 rounds of {advance the virtual clock 11 min and fire due timers; resolve pending HTLCs; heal services; mine past the payment windows and the CSV; restart}. Verdict in logical steps only. distinct = (chain, role, variant, cut op, final state)"
+	r.Rule = "prefix enumeration: every honest scenario (4 roles × 2 chains × {happy, payment failing, claim broadcast failing, fee unpaid}) is cut at every boundary crossing of the node (the peer dies there), optionally with one crash of the node before the cut; then the drain procedure runs: <=6 rounds of {advance the virtual clock 11 min and fire due timers; resolve pending HTLCs; heal services; mine past the payment windows and the CSV; restart}; the cuts of the happy scenarios (all cuts in thorough) are also drained with a restart before the first timer fires. Verdict in logical steps only. distinct = (chain, role, variant, cut op, final state)"
 	r.Assumptions = []string{"bounded restatement of liveness: the fairness script is the drain procedure", "reference watcher delivers truthful notifications"}
 	type combo struct{ chain, typ, victim, variant string }
 	var combos []combo
@@ -223,8 +223,27 @@ func runC17(r *Run, seed int64, c c17Case) {
 		}
 	}
 	before := p.state(h.victim)
-	// exactly the negotiation timeout passes
-	p.w.Advance(10 * time.Minute)
+	// exactly the negotiation timeout passes (optionally with a restart or two in the middle of the wait)
+	switch c.order {
+	case "restart-mid-wait":
+		p.w.Advance(4 * time.Minute)
+		h.settle()
+		h.victim.Restart()
+		h.settle()
+		p.w.Advance(6 * time.Minute)
+	case "two-restarts-mid-wait":
+		p.w.Advance(3 * time.Minute)
+		h.settle()
+		h.victim.Restart()
+		h.settle()
+		p.w.Advance(3 * time.Minute)
+		h.settle()
+		h.victim.Restart()
+		h.settle()
+		p.w.Advance(4 * time.Minute)
+	default:
+		p.w.Advance(10 * time.Minute)
+	}
 	h.settle()
 	final := p.state(h.victim)
 	cancelSent := false
@@ -267,6 +286,13 @@ func TestC17(t *testing.T) {
 		for k := int64(1); k <= 14; k++ {
 			c := b
 			c.restartAt = k
+			cases = append(cases, c)
+		}
+		for _, o := range []string{"restart-mid-wait", "two-restarts-mid-wait"} {
+			c := b
+			c.order = o
+			cases = append(cases, c)
+			c.restartAt = 3
 			cases = append(cases, c)
 		}
 	}
